@@ -51,7 +51,7 @@ func init() {
 				"each RTP client's frames per channel map to strictly increasing published indices with byte-identical payloads, and every packet published after its PLAY answer arrives (to the end, or to its departure); FLV clients: valid FLV whose NAL/AAC payloads are published units in order, at most once. " +
 				"distinct = decision-sequence hash; non-trivial = at least one pre-emption"
 			d.Assumptions = append(d.Assumptions, "simulated time passes only when no task is runnable in these families (no tape-chosen stalls): their rules speak about what was published after a client's answer plus one millisecond and about a publisher keeping a 5 ms cadence, which a stall in the middle of an operation would blur")
-			d.RequiredProbes = []string{"fan.kind.tcp", "fan.kind.udp", "fan.kind.ws", "fan.kind.wsp", "fan.kind.flv", "fan.kind.wsflv", "fan.kind.mcast", "fan.real-pusher", "fan.left-early", "fan.complete-run-checked", "fan.wsp-pause-resume", "fan.flv-complete-run-checked", "fan.player-own-channel-numbers"}
+			d.RequiredProbes = []string{"fan.kind.tcp", "fan.kind.udp", "fan.kind.ws", "fan.kind.wsp", "fan.kind.flv", "fan.kind.wsflv", "fan.kind.mcast", "fan.real-pusher", "fan.left-early", "fan.complete-run-checked", "fan.wsp-pause-resume", "fan.flv-complete-run-checked", "fan.player-own-channel-numbers", "fan.player-single-channel-per-track"}
 		} else {
 			d.Rule = "same scenario, plus RTSP/TCP and HTTP-FLV clients that stop reading for good (2 KiB window: the server's delivery goroutine blocks in a write); the stream ends by {publisher disconnect, publisher connection reset inside a frame, publisher TEARDOWN, replacement by a new publisher, DELETE /api/v1/streams, Unregist, server shutdown} while consumers are attached, attaching or leaving; " +
 				"every attached client sees its connection closed by the server within 5 simulated seconds, the ended stream's consumer count is 0 (never negative at any sample), rtsp/flv/wsp active counters return to their start values, no UDP socket stays open, no session/delivery/conversion goroutine survives. " +
@@ -88,6 +88,7 @@ type fanConsumer struct {
 	ports    map[string]int // udp/mcast: destination port -> media channel
 	chV, chA int            // tcp/ws/wsp: first interleaved channel number negotiated for video / audio
 	layout   int            // which numbers to ask for
+	single   bool           // one interleaved channel per track ("interleaved=n"): RTCP has no channel
 	dgEnd    int            // mcast: ... and when it left (0: stayed)
 	dgStart  int            // mcast: datagrams the group had received when this member's PLAY was answered
 	played   bool
@@ -136,7 +137,7 @@ func buildSvcFan(tier string, prop string) sim.Scenario {
 		span := time.Duration(nPk) * gap
 		kinds := []string{"tcp", "udp", "ws", "wsp", "flv", "wsflv", "mcast"}
 		for i := 0; i < nCons; i++ {
-			c := &fanConsumer{kind: kinds[tp.Choose(len(kinds))], name: fmt.Sprintf("c%d", i), audio: tp.Choose(3) != 0, layout: tp.Choose(5)}
+			c := &fanConsumer{kind: kinds[tp.Choose(len(kinds))], name: fmt.Sprintf("c%d", i), audio: tp.Choose(3) != 0, layout: tp.Choose(6)}
 			if c.kind == "mcast" && !realPusher { // only a pushed stream has a multicast proxy
 				c.kind = "udp"
 			}
@@ -574,6 +575,13 @@ func buildSvcFan(tier string, prop string) sim.Scenario {
 					for _, f := range c.cl.frames {
 						ch := f.Channel
 						switch {
+						case c.single && ch == c.chV:
+							ch = 0
+						case c.single && c.audio && ch == c.chA:
+							ch = 2
+						case c.single:
+							w.Fail("C01/unsubscribed-channel", "%s client %s negotiated one interleaved channel per track (video %d, audio %d, audio=%v: no channel for RTCP) and received a frame on channel %d", c.kind, c.name, c.chV, c.chA, c.audio, f.Channel)
+							return
 						case ch == c.chV || ch == c.chV+1:
 							ch = ch - c.chV
 						case c.audio && (ch == c.chA || ch == c.chA+1):
@@ -588,6 +596,10 @@ func buildSvcFan(tier string, prop string) sim.Scenario {
 				subscribed := map[int]bool{0: true, 1: true}
 				if c.audio {
 					subscribed[2], subscribed[3] = true, true
+				}
+				if c.single { // no channel was negotiated for the RTCP of either track
+					delete(subscribed, 1)
+					delete(subscribed, 3)
 				}
 				last := map[int]int{}
 				have := map[int]bool{}
@@ -769,8 +781,13 @@ func fanConsume(w *sim.World, sw *svcWorld, c *fanConsumer, base string, pubN fu
 			return
 		}
 		// the interleaved channel numbers are the client's choice: not necessarily the publisher's (0-1, 2-3)
-		lay := [][2]int{{0, 2}, {0, 2}, {4, 6}, {2, 0}, {8, 10}}[c.layout]
+		lay := [][2]int{{0, 2}, {0, 2}, {4, 6}, {2, 0}, {8, 10}, {0, 1}}[c.layout]
 		c.chV, c.chA = lay[0], lay[1]
+		// layout 5: "interleaved=0" for video and "interleaved=1" for audio — one channel per track, none for its RTCP
+		c.single = c.layout == 5 && (c.kind == "tcp" || c.kind == "ws" || c.kind == "wsp")
+		if c.single {
+			w.Probe("fan.player-single-channel-per-track")
+		}
 		if c.layout > 1 {
 			w.Probe("fan.player-own-channel-numbers")
 		}
@@ -783,6 +800,9 @@ func fanConsume(w *sim.World, sw *svcWorld, c *fanConsumer, base string, pubN fu
 			}
 			if c.kind == "mcast" {
 				return "RTP/AVP;multicast"
+			}
+			if c.single {
+				return fmt.Sprintf("RTP/AVP/TCP;unicast;interleaved=%d", lo)
 			}
 			return fmt.Sprintf("RTP/AVP/TCP;unicast;interleaved=%d-%d", lo, lo+1)
 		}
